@@ -2,6 +2,7 @@
 import os, sys, json, time, hashlib, random, importlib, traceback, multiprocessing, re
 from . import build
 from .shim import Shim, ShimCrash, ShimError, Result
+from .inout import INOUT
 
 VERIF = build.VERIF
 EVID = os.environ.get("VERIF_EVIDENCE_DIR", os.path.join(VERIF, "evidence"))
@@ -35,6 +36,10 @@ class Ctx:
         tot = int((quick if self.quick else thorough) * self.scale)
         base, rem = divmod(tot, self.nshards)
         return base + (1 if self.shard < rem else 0)
+    def iters(self, quick, thorough):
+        """this shard's share of a counted workload as GLOBAL case indices (shard, shard + nshards, ...): selectors of the form
+        `it % K` then cycle through every kind across the shards even when a shard gets fewer than K cases"""
+        for k in range(self.n(quick, thorough)): yield k * self.nshards + self.shard
     def mine(self, seq):
         """deterministic partition of an enumerated finite family over the shards (sub-sampled when self.scale < 1)"""
         keep = max(1, int(round(1 / self.scale))) if self.scale < 1 else 1
@@ -141,6 +146,13 @@ class Ctx:
             key = "%s:%s:%s:%s" % (self.prop, op, e.kind, "/".join(fr[:3]) if fr else "noframes")
             self.fail(key, "shim died (%s) on config %s\n%s" % (e.kind, config, e.report[-6000:]), cmds=e.history, config=config)
             return None
+        if r.mod:
+            if os.environ.get("VERIF_MOD_DISCOVER"):
+                with open(os.environ["VERIF_MOD_DISCOVER"], "a") as f: f.write("%s %s\n" % (op, ",".join(map(str, r.mod))))
+            else:
+                for k in r.mod:
+                    if k not in INOUT.get(op, ()):
+                        self.fail("%s:%s:input_argument_modified:arg%d" % (self.prop, op, k), "the call changed the bytes of input argument %d, which the API declares const (or the shim passes as a pure input): %r" % (k, r), cmds=list(s.hist), config=config)
         if r.err:
             self.fail("%s:%s:error_callback" % (self.prop, op), "error callback fired: %r" % (r,), cmds=list(s.hist), config=config)
         if r.ill and ill == 0:
